@@ -165,6 +165,15 @@ Fixpoint rows_step (g : list (list (string * port) * procfn + val)) (o : op) (co
   | _, _, _ => false
   end.
 
+(* State() after an accepted operation, every struct node: Stale exactly when its cone was touched since its last
+   completed execution (or it never executed); parameters always report Processed *)
+Fixpoint states_ok (g : list (list (string * port) * procfn + val)) (n : id) (t : list row) (touched : list bool) : bool :=
+  match t, touched with
+  | [], [] => true
+  | (_, s, _) :: tr, tc :: tcr => (if is_param g n then negb s else Bool.eqb s tc) && states_ok g (S n) tr tcr
+  | _, _ => false
+  end.
+
 Fixpoint prop_run (pan : pantab) (g : list (list (string * port) * procfn + val)) (t : list row) (touched : list bool) (ops : list (op * obs)) : bool :=
   match ops with
   | [] => true
@@ -195,7 +204,7 @@ Fixpoint prop_run (pan : pantab) (g : list (list (string * port) * procfn + val)
                                (seq 0 (length touched))
                | _ => map (fun k => nth k touched true || in_cone gr k (target o)) (seq 0 (length touched))
                end in
-             prop_run pan g' t' touched' r
+             states_ok g' 0 t' touched' && prop_run pan g' t' touched' r
          end
        else rows_eqb t t' && optZ_eqb (o_value ob) None && prop_run pan g t' touched r)
   end.
@@ -205,5 +214,6 @@ Definition prop_ok (c : case) : bool :=
   | CHist ds pans t0 ops =>
       (length t0 =? length ds) &&
       forallb (fun r : row => let '(v, _, e) := r in (v =? 0) && (e =? 0)) t0 &&
+      states_ok (g_init ds) 0 t0 (map (fun _ => true) ds) &&
       prop_run (pan_of pans) (g_init ds) t0 (map (fun _ => true) ds) ops
   end.
